@@ -107,9 +107,9 @@ fn cff2_deep_fields(out: &mut Vec<Field>, d: &[u8], hs: usize, tl: usize, rng: &
                 let g = if rng.pct(70) { rng.usize_below(count.min(256)) } else { rng.usize_below(count) };
                 let (s, e) = objs[g];
                 if e > s {
-                    f(out, "CFF2.charstring.first", s, 1, n);
-                    f(out, "CFF2.charstring.last", e - 1, 1, n);
-                    f(out, "CFF2.charstring.byte", s + rng.usize_below(e - s), 1, n);
+                    f(out, &format!("CFF2.charstring.first#g{}", g), s, 1, n);
+                    f(out, &format!("CFF2.charstring.last#g{}", g), e - 1, 1, n);
+                    f(out, &format!("CFF2.charstring.byte#g{}", g), s + rng.usize_below(e - s), 1, n);
                     // many operands before one path operator (CFF2 allows 513 stack entries)
                     let ops: [u8; 10] = [5, 6, 7, 8, 24, 25, 26, 27, 30, 31];
                     let nops = *rng.pick(&[47usize, 48, 49, 52, 96, 200, 512, 513, 514]);
@@ -118,12 +118,12 @@ fn cff2_deep_fields(out: &mut Vec<Field>, d: &[u8], hs: usize, tl: usize, rng: &
                         let mut prog = vec![139u8, 139, 21];
                         prog.extend(std::iter::repeat(139u8 + (rng.below(20) as u8)).take(nops));
                         prog.push(ops[rng.usize_below(ops.len())]);
-                        fw(out, "CFF2.charstring.manyOperands", s, prog, n);
+                        fw(out, &format!("CFF2.charstring.manyOperands#g{}", g), s, prog, n);
                     }
                     // blend with a count that does not match the operands present
                     if e - s >= 8 {
                         let nb = 139u8 + rng.below(8) as u8;
-                        fw(out, "CFF2.charstring.blend", s, vec![140, 141, 142, 143, 144, nb, 16, 21], n);
+                        fw(out, &format!("CFF2.charstring.blend#g{}", g), s, vec![140, 141, 142, 143, 144, nb, 16, 21], n);
                     }
                     // vsindex beyond the variation store, then blend
                     if e - s >= 6 {
@@ -277,9 +277,9 @@ fn cff_deep_fields(out: &mut Vec<Field>, d: &[u8], rng: &mut Rng) {
                 }
                 let (s, e) = cs.objs[g];
                 if e > s {
-                    f(out, "CFF.charstring.first", s, 1, n);
-                    f(out, "CFF.charstring.last", e - 1, 1, n);
-                    f(out, "CFF.charstring.byte", s + rng.usize_below(e - s), 1, n);
+                    f(out, &format!("CFF.charstring.first#g{}", g), s, 1, n);
+                    f(out, &format!("CFF.charstring.last#g{}", g), e - 1, 1, n);
+                    f(out, &format!("CFF.charstring.byte#g{}", g), s + rng.usize_below(e - s), 1, n);
                     // `dx dy bchar achar endchar`: accented character built from two others
                     // (standard encoding codes), possibly from itself
                     let any_code = |rng: &mut Rng| -> u8 {
@@ -307,7 +307,7 @@ fn cff_deep_fields(out: &mut Vec<Field>, d: &[u8], rng: &mut Rng) {
                     prog.extend(enc(c2));
                     prog.push(14);
                     if e - s >= prog.len() {
-                        fw(out, "CFF.charstring.seac", s, prog, n);
+                        fw(out, &format!("CFF.charstring.seac#g{}", g), s, prog, n);
                     }
                     // callsubr / callgsubr with an arbitrary index
                     let idx = [139u8, 32, 246, 28][rng.usize_below(4)];
@@ -1368,6 +1368,10 @@ pub fn locate_glyf(d: &[u8], offsets: &[usize], rng: &mut Rng) -> Vec<Field> {
                 f(&mut out, "glyf.composite.instructionLength", after, 2, n);
             }
         }
+    }
+    // name the glyph, so that the generator can aim outline / subset ops at it
+    for fld in &mut out {
+        fld.name = format!("{}#g{}", fld.name, g);
     }
     out
 }
